@@ -243,10 +243,16 @@ class Exec:
             return self.ev(e.body, st)
         if c is False:
             return self.ev(e.orelse, st)
+        n0 = len(st.pc)
         s1 = st.fork(); s1.assume(c)
         a = self.ev(e.body, s1)
+        export_facts(s1, st, n0, [c])
+        n1 = len(st.pc)
         s2 = st.fork(); s2.assume(NOT(c))
         b = self.ev(e.orelse, s2)
+        export_facts(s2, st, n1, [NOT(c)])
+        st.heap.update({k: v for k, v in s1.heap.items() if k not in st.heap})
+        st.heap.update({k: v for k, v in s2.heap.items() if k not in st.heap})
         st.side += s1.side + s2.side
         return self.ite_val(c, a, b, st)
 
@@ -280,11 +286,17 @@ class Exec:
             vals.append((v, t))
             if k < len(e.values) - 1:
                 nxt = cur.fork()
-                nxt.assume(t if isinstance(e.op, ast.And) else NOT(t))
-                forks.append(nxt)
+                g = t if isinstance(e.op, ast.And) else NOT(t)
+                nxt.assume(g)
+                forks.append((nxt, len(nxt.pc), g))
                 cur = nxt
-        for f in forks:
+        guards = [g for _, _, g in forks]
+        for (f, n0, g) in forks:
             st.side += f.side
+        if forks:
+            last = forks[-1][0]
+            export_facts(last, st, len(st.pc), guards)
+            st.heap.update({k: v for k, v in last.heap.items() if k not in st.heap})
         ts = [t for _, t in vals]
         if all(is_bool(v) for v, _ in vals):
             return AND(*ts) if isinstance(e.op, ast.And) else OR(*ts)
@@ -904,6 +916,8 @@ class Exec:
         for cl in c.of('modifies'):
             for a in cl.args:
                 tgt = self.evs(a, loc)
+                if isinstance(tgt, Ref) and self_obj is not None and tgt.oid == self_obj.oid:
+                    continue        # constructor: the attributes are defined by establishes(...)
                 if isinstance(tgt, Ref):
                     old = st.deref(tgt)
                     self.write_ref(tgt, fresh_like(old, 'mod', st), st, node, 'callee %s modifies' % q)
@@ -930,6 +944,12 @@ class Exec:
                 st.assume(fct)
         if isinstance(rt, TOpaque) and rt.tag == 'none':
             result = None
+        if isinstance(rt, TOpaque) and rt.tag.startswith('obj:') and not defined:
+            facts = []
+            attrs = {an: fresh_value(at, 'res_' + an, assume=facts) for an, at in getattr(rt, 'attrs', {}).items()}
+            for fct in facts:
+                st.assume(fct)
+            result = SObj(rt.cls, attrs)
         if isinstance(result, CONTAINERS):
             result = st.alloc(result)
         elif isinstance(result, tuple):
@@ -938,6 +958,13 @@ class Exec:
         loc.env['result'] = result
         if self_obj is not None:
             loc.env['self'] = self_obj
+        for cl in c.of('functional'):       # functional(<result component>, 'name', shape-expr, args...): result is a function of args
+            tgt = st.deref(self.evs(cl.args[0], loc))
+            name = ast.literal_eval(cl.args[1])
+            tok = self.np.fun_token(name, [self.evs(a, loc) for a in cl.args[2:]], st)
+            from . import linalg_rules as LA
+            st.assume(LA.matrix_token(self.np, tgt, st) == tok)
+            self.use('DET:%s is a deterministic function of its listed arguments (no RNG / state read; checked on the callee)' % name)
         for cl in c.of('establishes'):      # constructor: attribute definitions  establishes(name=expr,...)
             obj = st.deref(self_obj)
             newattrs = dict(obj.attrs)
@@ -1131,8 +1158,9 @@ class Exec:
             na = dict(o.attrs)
             na[tg.attr] = self.snapshot(v, st) if isinstance(v, Ref) else v
             if isinstance(v, Ref):
-                st.ghost.setdefault('attr_src', {})
-                st.ghost['attr_src'] = dict(st.ghost['attr_src'], **{(base.oid, tg.attr): v})
+                src = dict(st.ghost.get('attr_src', {}))
+                src[(base.oid, tg.attr)] = v
+                st.ghost['attr_src'] = src
             self.write_ref(base, SObj(o.cls, na), st, node)
         else:
             raise Unsupported('assignment target')
@@ -1299,6 +1327,17 @@ def split_goal(g, depth=0):
         if z3.is_quantifier(g.arg(0)) or z3.is_quantifier(g.arg(1)) or depth == 0:
             return [(':fwd', z3.Implies(g.arg(0), g.arg(1))), (':bwd', z3.Implies(g.arg(1), g.arg(0)))]
     return [('', g)]
+
+
+def export_facts(loc, st, n0, skip):
+    """facts added to a forked evaluation state beyond its guard are definitions of fresh symbols: keep them on the parent path"""
+    skip_ids = {Z(x).get_id() for x in skip if not isinstance(x, bool)}
+    for f in loc.pc[n0:]:
+        if f.get_id() not in skip_ids:
+            st.pc.append(f)
+    for k, v in loc.ghost.items():
+        if k in ('tokens', 'mtokens', 'derived_tokens', 'counts', 'linalg_axioms'):
+            st.ghost[k] = v
 
 
 def guards_z(gs):
